@@ -187,6 +187,25 @@ def summarise(ctx, qn, policy=default_policy, oracle=None, args=None, self_term=
     return ps
 
 
+def fresh_object_summaries(ctx, cname, meth, policy=default_policy, oracle=None):
+    """Summaries of <cname>.<meth> run on an object that <cname>.__init__ has just built from symbolic arguments: what the method computes in terms of the
+    CONSTRUCTOR ARGUMENTS, whatever fields, tables or properties the class uses internally to remember them.  -> (init path, method paths)"""
+    cls = ctx.cls(cname)
+    init = cls.lookup('__init__')
+    if init is None:
+        raise Undecided('%s has no constructor' % cname)
+    ips = normal(SymEx(ctx.M, policy=default_policy).run(init, dyn=cls))
+    if len(ips) != 1:
+        raise Undecided('%s.__init__ has %d accepting paths' % (cname, len(ips)))
+    heap = {k: v for k, v in ips[0].heap.items()}
+    from .symex import State
+    fn = ctx.fn('%s.%s' % (cname, meth))
+    sx = SymEx(ctx.M, policy=policy, oracle=oracle)
+    ps = sx.run(fn, state=State(heap=dict(heap)), dyn=cls)
+    ctx.paths_explored += len(ps) + 1
+    return ips[0], ps
+
+
 def inline_all(names):
     """policy: inline the default set plus the listed qualified names"""
     names = set(names)
